@@ -450,6 +450,25 @@ func genMetadata() *leanFile {
 		lost = append(lost, fmt.Sprintf("%s:Server.Restore calls %v (model: Reset, applyCreateStream(stream, true, 0), applyCreateConsumerGroup(group, true))", c06FsmGo, rc))
 	}
 	l.def("restoreCalls", "List String", leanStrList(rc), "calls of Restore")
+	// What a snapshot says a group member is subscribed to: Snapshot() takes Members[].Streams from
+	// consumerGroup.GetMembers, which must list the keys of consumer.streams (the subscription set)
+	// — not, say, the keys of consumer.assignments, which lack the streams a stand-by member
+	// currently holds nothing of. The maps ranged over inside GetMembers, in source order:
+	var gmRanges []string
+	gf = load(groupsGo)
+	if fd := gf.fn("consumerGroup.GetMembers"); fd != nil && fd.Body != nil {
+		ast.Inspect(fd.Body, func(n ast.Node) bool {
+			if rs, ok := n.(*ast.RangeStmt); ok {
+				gmRanges = append(gmRanges, nows(gf.src(rs.X)))
+			}
+			return true
+		})
+	}
+	if !eqList(gmRanges, []string{"c.members", "member.streams"}) {
+		lost = append(lost, fmt.Sprintf("%s:consumerGroup.GetMembers ranges over %v (model: the members, and for each member its subscription set member.streams)", groupsGo, gmRanges))
+	}
+	facts["Metadata.getMembersRanges"] = gmRanges
+	l.def("getMembersRanges", "List String", leanStrList(gmRanges), "maps ranged over by consumerGroup.GetMembers (the source of Members[].Streams in a snapshot)")
 	// apply stamps the Raft index on the partitions of a new stream
 	if !assignsIn(c06FsmGo, "Server.apply", "partition.LeaderEpoch", "index") || !assignsIn(c06FsmGo, "Server.apply", "partition.Epoch", "index") {
 		lost = append(lost, c06FsmGo+":Server.apply (partition.LeaderEpoch = index; partition.Epoch = index)")
